@@ -22,7 +22,10 @@ RULE = ('index-expression grammar on annotated arrays filled with their own flat
         'labels/other metadata/other ndim, and of pieces obtained by real slicing; (f2) adjacent pieces along time / channel / epoch at 100 kHz '
         'and 195312.5 Hz with exactly ONE attribute of ONE piece perturbed minimally (rate by relative 1e-9, 1e-6, 1e-4 and +-0.5 Hz; s0 by +-1; '
         'one label replaced by an equal-looking one of another type; one nested metadata value; one more dimension) - must be rejected, '
-        'the unperturbed pieces must restore the original; (g) arithmetic, copy, astype. '
+        'the unperturbed pieces must restore the original; (g) arithmetic, copy, astype; (l) sole integer ndarrays (int64, intp, uint8) and '
+        'lists without a 0 / with a 0 / empty / out of range on the first axis of (5,), (3,4), (4,2,3), alone and chained; integer lists and '
+        'arrays on the time axis inside tuples; boolean masks (all-True, mixed, all-False, wrong length) as list / ndarray / list of '
+        'np.bool_ on the first and the time axis; a 0-d ndarray rate followed by strided slices with the rate of the SOURCE read afterwards. '
         'Integer lists also as 1-D integer ndarrays inside tuples. In 7 of 9 cases the channel labels and metadata are heterogeneous '
         'Python objects (mixed ints/strings, tuples, strings, float/None/tuple mixes; metadata dicts holding them), compared with the '
         'original objects by identity or typed ==. '
@@ -38,7 +41,8 @@ ASSUMPTIONS = ['slice steps are None or >= 1 (the property quantifies over step 
                '(ints, strings, None, tuples, floats, dicts with nested values) to its identifier by identity or type-exact equality',
                'rates are chosen so that fs/step is exact in binary64 (36000, 45, 1757812.5); the model keeps fs as a fraction',
                'the value of s0 after a strided slice is compared model-vs-code but not judged (pinned by the existing tests)',
-               'an int, list or mask on the TIME axis and a newaxis that is not leading are outside the claim: compared model-vs-code only']
+               'an int on the TIME axis and a newaxis that is not leading are outside the claim: compared model-vs-code only; a list / '
+               'integer array / mask on the TIME axis may be refused, but when accepted the result must report the timestamps of the selected samples']
 
 EXC = {'IndexError': 'EIndex', 'ValueError': 'EValue', 'NotImplementedError': 'ENotImpl', 'TypeError': 'ETypeKey',
        'KeyError': 'ETypeKey', 'UnboundLocalError': 'EUnbound'}
@@ -156,6 +160,8 @@ def _kinds(kd, d, fs, s0):
         f = np.float64(f)
     elif kd.get('fs') == 'f32' and float(np.float32(f)) == f:
         f = np.float32(f)
+    elif kd.get('fs') == 'arr0':          # a 0-d ndarray (mutable: `fs /= step` would change it in place)
+        f = np.array(float(f))
     if kd.get('s0') == 'np':
         s0 = np.int64(s0)
     elif kd.get('s0') == 'float':
@@ -220,9 +226,11 @@ def _pyitem(it, npk=None):
         return slice(it[1], it[2], it[3])
     if k == 'l':
         return [np.int64(z) for z in it[1]] if 't' in npk else list(it[1])
-    if k == 'a':                      # 1-D integer ndarray (only generated inside a tuple; NumPy and the model read it as the list)
-        return np.array(it[1], dtype=int)
+    if k == 'a':                      # 1-D integer ndarray; it[2] = dtype name (default int).  Inside a tuple NumPy and the
+        return np.array(it[1], dtype=(it[2] if len(it) > 2 else int))      # model read it as the list; sole: XArr
     if k == 'm':
+        if it[2] == 'b_':             # a python list whose elements are np.bool_
+            return [np.bool_(b) for b in it[1]]
         if it[2] == 'pd':             # a boolean mask that is itself an annotated array (e.g. the result of a comparison)
             from psiaudio.pipeline import PipelineData
             return PipelineData(np.array(it[1], dtype=bool), fs=1.0)
@@ -382,7 +390,11 @@ def impl(case):
         x = _mk(case)
         steps = [_obs(x, lab)]
         src, r = _chain(x, case['ixs'], lab, npk, steps)
-        return {'steps': steps, 'alias': _alias(src, r, lab) if src is not None else None}
+        alias = _alias(src, r, lab) if src is not None else None
+        if alias is None and _rate(x.fs) != Fraction(*steps[0]['fs']):
+            alias = (f'indexing changed the rate of the SOURCE array from {Fraction(*steps[0]["fs"])} to {_rate(x.fs)} '
+                     f'(rate object of type {type(x.fs).__name__} shared with the result)')
+        return {'steps': steps, 'alias': alias}
     if k == 'new':
         x = _catch(lambda: _mk_new(case))
         if isinstance(x, dict):
@@ -453,12 +465,20 @@ def _item(it):
     if k in 'la':
         return f'IList {zlist(it[1])}'
     if k == 'm':
-        return f'IMask {blist(it[1])} {"true" if it[2] else "false"}'
+        return f'IMask {blist(it[1])} {"true" if it[2] in (True, "pd") else "false"}'
     return 'IEllipsis' if k == 'e' else 'INewaxis'
 
 
 def _index(idx):
     return f'{{| sole := {"true" if idx["sole"] else "false"}; items := {listlit([_item(i) for i in idx["items"]])} |}}'
+
+
+def _sole_arr(idx):
+    return idx['sole'] and len(idx['items']) == 1 and idx['items'][0][0] == 'a'
+
+
+def _xindex(idx):
+    return f'(XArr {zlist(idx["items"][0][1])})' if _sole_arr(idx) else f'(XIdx {_index(idx)})'
 
 
 def _x(case):
@@ -513,6 +533,9 @@ def term(case, res):
     k = case['k']
     if k == 'get':
         n = len(res['steps']) - 1
+        if any(_sole_arr(i) for i in case['ixs'][:n]):          # a sole integer ndarray is not an item of the index language
+            ixs = listlit([_xindex(i) for i in case['ixs'][:n]])
+            return f'check_getitems_x {REP} {_x(case)} {ixs} {_res(res["steps"][-1])}'
         ixs = listlit([_index(i) for i in case['ixs'][:n]])
         return f'check_getitems_gen {REP} {_x(case)} {ixs} {_res(res["steps"][-1])}'
     if k == 'new':
@@ -646,8 +669,57 @@ def _expected(inp, idx):
     return exp
 
 
+def _time_fancy(inp, idx):
+    """the expression is one NumPy reads per axis (as in _expected) except that the TIME item is a list / integer array /
+    mask with nothing else advanced: returns the selected time positions, else None"""
+    items = idx['items']
+    shape = inp['shape']
+    nd = len(shape)
+    if sum(1 for i in items if i[0] == 'e') > 1:
+        return None
+    k = 0
+    while k < len(items) and items[k][0] == 'n':
+        k += 1
+    rest = items[k:]
+    if any(i[0] == 'n' for i in rest) or nd + k > 3:
+        return None
+    cons = [i for i in rest if i[0] != 'e']
+    if len(cons) > nd:
+        return None
+    full = ['s', None, None, None]
+    if any(i[0] == 'e' for i in rest):
+        p = [j for j, i in enumerate(rest) if i[0] == 'e'][0]
+        per = rest[:p] + [full] * (nd - len(cons)) + rest[p + 1:]
+    else:
+        per = rest + [full] * (nd - len(cons))
+    if per[-1][0] not in 'lam' or any(it[0] in 'lam' for it in per[:-1]):
+        return None
+    head = per[:-1]
+    while head and head[-1][0] == 'i':
+        head = head[:-1]
+    if any(it[0] == 'i' for it in head):
+        return None         # an int separated from the time list by a slice: NumPy moves the indexed axes to the front
+    if per[-1][0] == 'm' and per[-1][2] == 'pd':
+        return None
+    if any(it[0] == 's' and it[3] is not None and it[3] < 1 for it in per):
+        return None
+    sels = [_sel_of(it, n) for it, n in zip(per, shape)]
+    if any(s is None for s in sels):
+        return None
+    return sels[-1][1]
+
+
 def _judge_step(inp, idx, got, npk=None):
     """returns (message, key) or None"""
+    tsel = _time_fancy(inp, idx)
+    if tsel is not None and 'exc' not in got and 'scalar' not in got:
+        # fancy indexing of the time axis may be refused; when it is accepted every remaining sample must keep its
+        # absolute timestamp (only a selection that is one contiguous run can be described by s0 / fs at all)
+        want_t = [inp['s0'] + i for i in tsel]
+        got_t = list(range(got['s0'], got['s0'] + got['shape'][-1]))
+        if got_t != want_t or Fraction(*got['fs']) != Fraction(*inp['fs']):
+            return (f'x{inp["shape"]}[{_show(idx)}] picked the samples {tsel[:4]}.. of the time axis but reports the samples '
+                    f'{got_t[:4]}.. (s0 {got["s0"]}, fs {Fraction(*got["fs"])}): timestamps are not those of the selected samples', None)
     exp = _expected(inp, idx)
     if exp is None:
         return None
@@ -708,8 +780,10 @@ def _show(idx):
         if k == 'l':
             return str(it[1])
         if k == 'a':
-            return f'array({it[1]})'
+            return f'array({it[1]}' + (f', dtype={it[2]})' if len(it) > 2 else ')')
         if k == 'm':
+            if it[2] == 'b_':
+                return '[' + ', '.join('np.True_' if b else 'np.False_' for b in it[1]) + ']'
             return ('PipelineData(' if it[2] == 'pd' else 'array(' if it[2] else '') + str([bool(b) for b in it[1]]) + (')' if it[2] else '')
         return '...' if k == 'e' else 'None'
     s = ', '.join(one(i) for i in idx['items'])
@@ -976,9 +1050,7 @@ def _rand_index(shape, rng):
     u = rng.random()
     if u < 0.15:
         it = _rand_item(shape[0], rng, time=(nd == 1))
-        if it[0] == 'a':        # a bare integer ndarray takes the `index.all()` shortcut: outside the index language
-            it = ['l', it[1]]
-        return {'sole': True, 'items': [it]}
+        return {'sole': True, 'items': [it]}       # (a bare integer ndarray: XArr of the model)
     items = []
     naxis = rng.choice([nd, nd, nd, nd - 1, nd - 1, max(nd - 2, 0), nd + 1])
     ell = rng.random() < 0.35 and naxis <= nd
@@ -1390,6 +1462,73 @@ def _op_cases(tier, rng):
     yield {'k': 'op', 'shape': [4], 's0': 2, 'fs': FSS[0], 'op': ['copy'], 'cn': True}
 
 
+
+def _idx_cases(tier, rng):
+    """(l) index kinds around the two all-True-mask shortcuts (repair fix-C11idx): sole integer ndarrays (np.int64 / np.intp /
+    np.uint8) and plain lists WITHOUT a 0 on the first axis of 1-D / 2-D / 3-D arrays (with a 0, empty and out of range for
+    contrast), alone and in chains; integer lists / arrays on the TIME axis inside tuples; all-True and other boolean masks
+    as python list / ndarray / list of np.bool_ on the first and on the time axis; a 0-d ndarray as rate followed by strided
+    slices (the rate of the SOURCE array is read again afterwards)"""
+    full = ['s', None, None, None]
+    shapes = [(5,), (3, 4), (4, 2, 3)] + ([] if tier == 'quick' else [(2, 5), (3, 3, 6), (1, 4)])
+    j = 0
+    for shape in shapes:
+        n, nd = shape[0], len(shape)
+        zss = [[1, 2], [2, 2], [1], [-1, -2], [1, 2, 1], [n - 1], [-1], [0, 1], [2, 0], [], [n + 1], [1, n]]
+        zss = [[z for z in zs if -n - 1 <= z <= n + 1] for zs in zss if n > 2 or all(abs(z) <= n + 1 for z in zs)]
+        for zs in zss:
+            forms = [['l', zs]] + [['a', zs, dt] for dt in ('int64', 'intp', 'uint8') if dt != 'uint8' or all(z >= 0 for z in zs)]
+            for it in forms:
+                j += 1
+                yield _get(shape, [{'sole': True, 'items': [it]}], s0=[-5, 0, 7][j % 3], fs=FSS[j % 3])
+                if it[0] == 'a' and j % 2:
+                    yield _get(shape, [{'sole': False, 'items': [it]}], s0=3, fs=FSS[j % 3])
+                    if nd > 1:
+                        yield _get(shape, [{'sole': False, 'items': [it, ['e'], ['s', 1, None, None]]}], s0=3)
+        # chains: the result of an array index indexed again by an array / a slice
+        if nd > 1:
+            for a, b in [([1, 2], [1]), ([2, 1, 1], [-1, -2]), ([1], [-1])]:
+                for dt in ('int64', 'uint8'):
+                    if dt == 'uint8' and min(a + b) < 0:
+                        continue
+                    yield _get(shape, [{'sole': True, 'items': [['a', a, dt]]}, {'sole': True, 'items': [['a', b, dt]]}], s0=-5)
+                    yield _get(shape, [{'sole': True, 'items': [['a', a, dt]]}, {'sole': False, 'items': [['e'], ['s', 1, None, 2]]}], s0=7)
+        # integer lists / arrays on the time axis
+        nt = shape[-1]
+        tl = [[1, 2], [1, 2, 3][:nt - 1], [2, 2], [-1], [-1, -2], [1], [nt - 1, 1], [0, 1], list(range(nt)), []]
+        lead = [[]] if nd == 1 else ([[full], [['i', 0]], [['e']], [['s', 1, None, None]]] if nd == 2 else
+                                     [[full, full], [['e']], [['i', 1], full], [['i', 0], ['i', 1]], [full, ['s', None, None, 2]]])
+        for zs in tl:
+            for pre in lead:
+                for it in (['l', zs], ['a', zs, 'int64']):
+                    if it[0] == 'a' and not zs:
+                        continue
+                    j += 1
+                    yield _get(shape, [{'sole': False, 'items': pre + [it]}], s0=[-5, 0, 7][j % 3], fs=FSS[j % 3])
+                    if nd < 3 and j % 3 == 0:
+                        yield _get(shape, [{'sole': False, 'items': [['n']] + pre + [it]}], s0=7)
+        # boolean masks: all-True and others, as python list / ndarray / list of np.bool_
+        for ax_n, pre in ([(n, None)] + ([] if nd == 1 else [(nt, p) for p in lead[:3]])):
+            pats = [[1] * ax_n, [1] * (ax_n - 1) + [0], [0] * ax_n, [0] + [1] * (ax_n - 1), [1] * (ax_n + 1), [1] * (ax_n - 1)]
+            for bits in pats:
+                for form in (False, True, 'b_'):
+                    if not bits and form is not True:
+                        continue
+                    it = ['m', bits, form]
+                    j += 1
+                    if pre is None:
+                        yield _get(shape, [{'sole': True, 'items': [it]}], s0=[-5, 0, 7][j % 3])
+                        yield _get(shape, [{'sole': False, 'items': [it]}], s0=3)
+                    else:
+                        yield _get(shape, [{'sole': False, 'items': pre + [it]}], s0=[-5, 0, 7][j % 3])
+        # a 0-d ndarray as rate, strided slices: the source keeps its rate
+        for ixs in ([[['s', None, None, 2]]], [[['e'], ['s', 1, None, 3]]], [[['s', None, None, 2]], [['e'], ['s', None, None, 2]]],
+                    [[['e'], ['s', 1, None, None]]], [[['s', None, None, 1]]]):
+            for q in range(3):
+                c = _get(shape, [{'sole': len(i) == 1 and i[0][0] == 's', 'items': i} for i in ixs], s0=[-5, 0, 7][q], fs=FSS[q])
+                c['kd'] = {'fs': 'arr0'}
+                yield c
+
 def _cases(tier, rng):
     quick = tier == 'quick'
     full = ['s', None, None, None]
@@ -1505,6 +1644,7 @@ def _cases(tier, rng):
     yield from _reject_cases(tier, rng)
     yield from _audit_cases(tier, rng)
     yield from _op_cases(tier, rng)
+    yield from _idx_cases(tier, rng)
 
 
 def cases(tier, rng):
